@@ -1,19 +1,38 @@
 """
-Shared runner for the transformation properties (C07, C08, C09):
-apply real strategies to corpus + generated programs, then
+Shared runner for the transformation properties (C07, C08, C09).
+
+Programs come from three sources: the hand-written corpus, the feature-axis synthesiser `xgen`, and DERIVED
+programs (the output of another transformation, so that e.g. `simplify` is also judged on what `unroll_for`
+emits).  Worker processes (fork, one program per task) apply every recipe chosen for the program and compare
+
  (1) property verdict (Spec oracle = the real interpreter on the ORIGINAL program): wherever the original
-     returns a value, the transformed program must return the same value (structurally, sign of zero);
+     returns, the transformed program must return the same value (structurally; sign of zero, NaN, infinities),
+     leave every list argument in the same final state, and must not raise / hang.  A STRICT remainder strategy
+     or a variable split factor may raise AssertionError exactly where its documented precondition fails
+     (length not divisible / factor < 1); the precondition is evaluated from the generator's loop metadata.
  (2) correspondence: the transformed AST is exported to the Lean evaluator and must behave like the real
      interpreter on the transformed program (ties the model semantics to what the transforms emit).
+
+A recipe is a Python expression string evaluated in `RECIPE_NS` (e.g. "split('k', where=0, strategy='STRICT')",
+"seq(elim_iter(), unroll_for(times=2))"), so a replay file is self-contained: program text + recipe + args + ctx.
 """
 from __future__ import annotations
-import importlib.util, os, shutil, sys, traceback, copy
-from proggen import *   # noqa
-from langexport import export_program, eval_line, run_real, Unsupported
+import importlib.util, os, shutil, sys, traceback, copy, tempfile, time, signal, json, ast as pyast, itertools
+import multiprocessing as mp
+from common import *   # noqa
+from langexport import export_program, eval_line, show_val, Unsupported, PY_ERRS
+from numcanon import err_name
+import xgen
 import fpy2 as fp
+from fpy2 import strategies as S
 from fpy2.ast import fpyast as A
+from fpy2.utils import NamedId
+from fpy2 import transform as T
+from fpy2.transform import (ConstFold, CopyPropagate, DeadCodeEliminate, ForUnroll, ForUnrollStrategy, WhileUnroll, SplitLoop,
+                            SplitLoopStrategy, ZipElim, EnumerateElim, ReduceFusion, FuncInline, FreeVarElim, LiftContext, Monomorphize,
+                            StmtCursor, BlockCursor, FuncBody)
 
-REALS = [1.5, -2.25, 0.1, 3.0, 100.0, -0.0, 0.0, float('inf'), float('nan'), 1e300, -7.0, 0.3, 2.0 ** -30, 5, 200.0, 1.0]
+NPROC = int(os.environ.get('VERIF_JOBS', '16'))
 
 def load_module(path, name):
     spec = importlib.util.spec_from_file_location(name, path)
@@ -31,7 +50,10 @@ def arg_kinds(fn):
         else: out.append('R')
     return out
 
+REALS = [1.5, -2.25, 0.1, 3.0, 100.0, -0.0, 0.0, float('inf'), float('nan'), 1e300, -7.0, 0.3, 2.0 ** -30, 5, 200.0, 1.0]
+
 def gen_inputs(R, kinds, n, maxlen=5):
+    """random argument tuples (kept for the checks that import it)"""
     ins = []
     for i in range(n):
         args = []
@@ -51,96 +73,694 @@ def describe(fn):
 class StrategyTimeout(Exception):
     pass
 
+# Time limits are CPU seconds of this process (ITIMER_PROF), not wall-clock: on a busy machine a 2 s wall limit turns
+# ordinary runs into "timeouts"; a genuinely non-terminating program burns CPU and is still stopped.
+def _arm(seconds, handler):
+    old = signal.signal(signal.SIGPROF, handler)
+    signal.setitimer(signal.ITIMER_PROF, seconds)
+    return old
+
+def _disarm(old):
+    signal.setitimer(signal.ITIMER_PROF, 0)
+    signal.signal(signal.SIGPROF, old)
+
 def with_timeout(thunk, seconds):
-    import signal
     def on_alarm(signum, frame): raise StrategyTimeout()
-    old = signal.signal(signal.SIGALRM, on_alarm)
-    signal.alarm(seconds)
+    old = _arm(seconds, on_alarm)
     try:
         return thunk()
     finally:
-        signal.alarm(0); signal.signal(signal.SIGALRM, old)
+        _disarm(old)
 
-def run_xforms(rep, tier, seed, prop, corpus_file, recipes, gen_programs, n_inputs, call_ctxs=(None,), classify=None):
-    """recipes: list of (name, function(Function, R) -> Function); may raise to decline"""
-    R = Prng(seed, prop)
-    progs = []   # (label, Function, source)
-    corp = load_module(os.path.join(os.path.dirname(__file__), 'corpus', corpus_file), f'fpyverif_{prop}_corpus')
-    for f in corp.ALL:
-        progs.append(('corpus:' + f.ast.name, f, None))
-    tmp = tempfile.mkdtemp(prefix=f'fpyverif_{prop}_', dir='/var/tmp')
+def observe(fn, args, ctx=None, timeout_s=2):
+    """(result line, final state of the list arguments) of one call of the real interpreter"""
+    def on_alarm(signum, frame): raise TimeoutError('timeout')
+    a = copy.deepcopy(list(args))
+    res = None
+    old = signal.signal(signal.SIGPROF, on_alarm)
     try:
-        G = Gen(R)
-        for pi in range(gen_programs):
-            funcs = G.program(pi)
-            path = os.path.join(tmp, f'p{pi}.py')
-            with open(path, 'w') as fh:
-                fh.write('import fpy2 as fp\n\n' + '\n'.join(src_func(f, annotate=True) for f in funcs))
+        try:
+            signal.setitimer(signal.ITIMER_PROF, timeout_s)
             try:
-                mod = load_module(path, f'fpyverif_{prop}_{seed}_p{pi}')
+                v = fn(*a, ctx=ctx) if ctx is not None else fn(*a)
+                res = 'ok ' + show_val(v)
+            finally:
+                signal.setitimer(signal.ITIMER_PROF, 0)      # the timer may still fire right here: caught below
+        except TimeoutError:
+            res = None
+        except Unsupported as e:
+            res = f'unsupported {e}'
+        except RecursionError:
+            res = 'err RecursionError'
+        except Exception as e:   # noqa
+            n = err_name(e)
+            res = 'err ' + PY_ERRS.get(n, n)
+    except TimeoutError:
+        res = None
+    finally:
+        signal.setitimer(signal.ITIMER_PROF, 0); signal.signal(signal.SIGPROF, old)
+    if res is None: return 'timeout', ''
+    try:
+        post = ' '.join(show_val(x) for x in a if isinstance(x, list))
+    except Exception:
+        post = '?'
+    return res, post
+
+# ====================================================================== recipes
+class Rcp:
+    """a transformation recipe: fn -> Function (raises to decline)"""
+    def __init__(self, go, strict=None, mono_ctx=None):
+        self.go = go; self.strict = strict; self.mono_ctx = mono_ctx
+    def __call__(self, fn): return self.go(fn)
+
+def _strategy(s, enum):
+    return enum[s] if isinstance(s, str) else s
+
+def _where(fn, w, strat_fn, **kw):
+    """None | int | ('site', j) | ('stmt', j) | ('body',) | ('tail',) -> what the strategy's `where` takes"""
+    if w is None or isinstance(w, int): return w
+    if w[0] == 'site': return S.sites(strat_fn, fn, **kw)[w[1]]
+    n = len(fn.ast.body.stmts)
+    if w[0] == 'stmt': return StmtCursor(fn.ast, FuncBody().stmt(w[1] % n))
+    if w[0] == 'body': return BlockCursor(fn.ast, FuncBody(), range(0, n))
+    if w[0] == 'tail': return BlockCursor(fn.ast, FuncBody(), range(n // 2, n))
+    raise ValueError(w)
+
+def _expr(src: str):
+    """FPy AST of a small factor expression: names, integers, + - *, len(x), max(a, b)"""
+    def cv(n):
+        if isinstance(n, pyast.Name): return A.Var(NamedId(n.id), None)
+        if isinstance(n, pyast.Constant) and isinstance(n.value, int): return A.Integer(n.value, None)
+        if isinstance(n, pyast.BinOp):
+            op = {pyast.Add: A.Add, pyast.Sub: A.Sub, pyast.Mult: A.Mul}[type(n.op)]
+            return op(cv(n.left), cv(n.right), None)
+        if isinstance(n, pyast.Call) and n.func.id == 'len': return A.Len(None, cv(n.args[0]), None)
+        if isinstance(n, pyast.Call) and n.func.id == 'max': return A.Max(None, [cv(a) for a in n.args], None)
+        raise ValueError(src)
+    return cv(pyast.parse(src, mode='eval').body)
+
+def r_simplify(cf=1, ctx=1, op=1, cp=1, dce=1):
+    return Rcp(lambda fn: S.simplify(fn, enable_const_fold=bool(cf), enable_const_fold_context=bool(ctx), enable_const_fold_op=bool(op),
+                                     enable_copy_prop=bool(cp), enable_dead_code_elim=bool(dce)))
+
+_CLASSES = {'ConstFold': ConstFold, 'CopyPropagate': CopyPropagate, 'DeadCodeEliminate': DeadCodeEliminate, 'ZipElim': ZipElim,
+            'EnumerateElim': EnumerateElim, 'ReduceFusion': ReduceFusion, 'FreeVarElim': FreeVarElim, 'LiftContext': LiftContext,
+            'FuncInline': FuncInline}
+
+def r_single(cls, **kw):
+    return Rcp(lambda fn: fn.with_ast(_CLASSES[cls].apply(fn.ast, **kw)))
+
+def r_constfold_shared(**kw):
+    """ConstFold with the analyses computed by the caller (the cached-analysis entry points)"""
+    def go(fn):
+        from fpy2.analysis import DefineUse, PartialEval
+        du = DefineUse.analyze(fn.ast); pe = PartialEval.apply(fn.ast, def_use=du)
+        return fn.with_ast(ConstFold.apply(fn.ast, def_use=du, partial_eval=pe, **kw))
+    return Rcp(go)
+
+def r_dce_shared():
+    def go(fn):
+        from fpy2.analysis import DefineUse
+        return fn.with_ast(DeadCodeEliminate.apply(fn.ast, DefineUse.analyze(fn.ast)))
+    return Rcp(go)
+
+def r_copyprop(names='all'):
+    def go(fn):
+        from fpy2.analysis import DefineUse
+        du = DefineUse.analyze(fn.ast)
+        ns = sorted({d.name for d in du.defs}, key=str)
+        pick = {'all': ns, 'even': ns[0::2], 'odd': ns[1::2], 'first': ns[:1], 'none': []}[names]
+        return fn.with_ast(CopyPropagate.apply(fn.ast, names=set(pick)))
+    return Rcp(go)
+
+def r_order(*classes, rounds=3):
+    def go(fn):
+        a = fn.ast
+        for _ in range(rounds):
+            for c in classes: a = _CLASSES[c].apply(a)
+        return fn.with_ast(a)
+    return Rcp(go)
+
+def r_fixpoint(*classes, cap=8):
+    def go(fn):
+        a = fn.ast
+        for _ in range(cap):
+            b = a
+            for c in classes: b = _CLASSES[c].apply(b)
+            if b.is_equiv(a): break
+            a = b
+        return fn.with_ast(a)
+    return Rcp(go)
+
+def r_unroll_for(where=None, times=1, strategy='PEEL', **ids):
+    st = _strategy(strategy, ForUnrollStrategy)
+    strict = {'kind': 'for', 'k': times + 1, 'where': where} if st is ForUnrollStrategy.STRICT else None
+    return Rcp(lambda fn: S.unroll_for(fn, _where(fn, where, S.unroll_for, times=times, strategy=st), times, strategy=st, **ids), strict=strict)
+
+def r_ForUnroll(where=None, times=1, strategy='PEEL', shared=False, **ids):
+    st = _strategy(strategy, ForUnrollStrategy)
+    strict = {'kind': 'for', 'k': times + 1, 'where': where} if st is ForUnrollStrategy.STRICT and times > 0 else None
+    def go(fn):
+        kw = {k: NamedId(v) for k, v in ids.items()}
+        if shared:
+            from fpy2.analysis import ReachingDefs
+            from fpy2.transform.utils import infer_array_size
+            kw.update(reaching_defs=ReachingDefs.analyze(fn.ast), array_size=infer_array_size(fn.ast))
+        return fn.with_ast(ForUnroll.apply(fn.ast, _where(fn, where, S.unroll_for, times=max(times, 1), strategy=st), times, st, **kw))
+    return Rcp(go, strict=strict)
+
+def r_unroll_while(where=None, times=1):
+    return Rcp(lambda fn: S.unroll_while(fn, _where(fn, where, S.unroll_while), times))
+
+def r_WhileUnroll(where=None, times=1):
+    return Rcp(lambda fn: fn.with_ast(WhileUnroll.apply(fn.ast, _where(fn, where, S.unroll_while), times)))
+
+def r_split(factor, where=None, strategy='PEEL', **ids):
+    st = _strategy(strategy, SplitLoopStrategy)
+    strict = {'kind': 'split', 'factor': factor, 'where': where, 'strict': st is SplitLoopStrategy.STRICT}
+    def go(fn):
+        fe = A.Integer(factor, None) if isinstance(factor, int) else A.Var(NamedId(factor), None)
+        return S.split(fn, factor, _where(fn, where, S.split, factor=fe, strategy=st), strategy=st, **ids)
+    return Rcp(go, strict=strict)
+
+def r_SplitLoop(factor, where=None, strategy='PEEL', shared=False, **ids):
+    """factor is the source of an FPy expression ('k + 1', 'len(xs)', '3')"""
+    st = _strategy(strategy, SplitLoopStrategy)
+    strict = {'kind': 'split', 'factor': factor if not str(factor).lstrip('-').isdigit() else int(factor), 'where': where, 'strict': st is SplitLoopStrategy.STRICT}
+    def go(fn):
+        fe = _expr(str(factor))
+        kw = {k: NamedId(v) for k, v in ids.items()}
+        if shared:
+            from fpy2.analysis import ReachingDefs
+            from fpy2.transform.utils import infer_array_size
+            kw.update(reaching_defs=ReachingDefs.analyze(fn.ast), array_size=infer_array_size(fn.ast))
+        return fn.with_ast(SplitLoop.apply(fn.ast, fe, _where(fn, where, S.split, factor=fe, strategy=st), st, **kw))
+    return Rcp(go, strict=strict)
+
+def r_elim_iter(enumerate=True, zip=True):
+    return Rcp(lambda fn: S.elim_iter(fn, enable_enumerate=enumerate, enable_zip=zip))
+
+def r_fuse():
+    return Rcp(lambda fn: S.fuse(fn))
+
+def _callees(fn):
+    from fpy2.function import Function
+    out = []
+    for _, e in T.walk_exprs(fn.ast):
+        if isinstance(e, A.Call) and isinstance(e.fn, Function) and e.fn not in out: out.append(e.fn)
+    return out
+
+def _funcs(fn, sel):
+    if sel is None: return None
+    cs = _callees(fn)
+    if not cs: raise ValueError('no callees')
+    if sel == 'first': return cs[:1]
+    if sel == 'last': return cs[-1:]
+    if sel == 'all': return cs
+    raise ValueError(sel)
+
+def r_inline(where=None, funcs=None, recursive=True):
+    def go(fn):
+        fs = _funcs(fn, funcs)
+        kw = {} if fs is None else {'funcs': fs}
+        return S.inline(fn, _where(fn, where, S.inline, **kw), funcs=fs, recursive=recursive)
+    return Rcp(go)
+
+def r_FuncInline(where=None, funcs=None, recursive=True, shared=False):
+    def go(fn):
+        fs = _funcs(fn, funcs)
+        kw = {} if fs is None else {'funcs': fs}
+        extra = {}
+        if shared:
+            from fpy2.analysis import DefineUse
+            extra['def_use'] = DefineUse.analyze(fn.ast)
+        return fn.with_ast(FuncInline.apply(fn.ast, funcs=fs, recursive=recursive, where=_where(fn, where, S.inline, **kw), **extra))
+    return Rcp(go)
+
+def r_inline_each(recursive=False, cap=12):
+    """inline site 0 repeatedly until no site is left (one call at a time)"""
+    def go(fn):
+        g = fn
+        for _ in range(cap):
+            if not S.sites(S.inline, g): break
+            g = S.inline(g, 0, recursive=recursive)
+        return g
+    return Rcp(go)
+
+def r_close(): return Rcp(lambda fn: S.close(fn))
+def r_lift_context(): return Rcp(lambda fn: S.lift_context(fn))
+
+def r_LiftContext(shared=True):
+    def go(fn):
+        from fpy2.analysis import PartialEval
+        return fn.with_ast(LiftContext.apply(fn.ast, eval_info=PartialEval.apply(fn.ast) if shared else None))
+    return Rcp(go)
+
+def r_mono(ctx_src, args=None):
+    """monomorphize(f, C [, argument types]) judged as f(*args, ctx=C) versus pinned(*args)"""
+    ctx = eval(ctx_src, {'fp': fp})
+    def go(fn):
+        tys = None
+        if args == 'infer':
+            from fpy2.analysis import TypeInfer
+            tys = list(TypeInfer.check(fn.ast).arg_types)
+        elif args == 'none':
+            tys = [None] * len(fn.ast.args)
+        return S.monomorphize(fn, ctx, tys)
+    return Rcp(go, mono_ctx=ctx)
+
+def r_Monomorphize(ctx_src):
+    ctx = eval(ctx_src, {'fp': fp})
+    return Rcp(lambda fn: fn.with_ast(Monomorphize.apply(fn.ast, ctx)), mono_ctx=ctx)
+
+def r_seq(*rs):
+    def go(fn):
+        for r in rs: fn = r(fn)
+        return fn
+    stricts = [r.strict for r in rs if r.strict]
+    monos = [r.mono_ctx for r in rs if r.mono_ctx is not None]
+    return Rcp(go, strict={'kind': 'unknown', 'factors': _dyn_factors(stricts)} if stricts else None, mono_ctx=monos[0] if monos else None)
+
+def _dyn_factors(stricts):
+    out = []
+    for st in stricts:
+        if st.get('kind') == 'split' and not isinstance(st['factor'], int): out.append(st['factor'])
+        out += st.get('factors', [])
+    return out
+
+def r_repeat(r, n=2):
+    return r_seq(*([r] * n))
+
+def r_fwd(first, second, where, **kw):
+    """aim `second` with a cursor taken on the ORIGINAL program and forwarded across `first`"""
+    strat = {'unroll_for': S.unroll_for, 'unroll_while': S.unroll_while, 'split': S.split, 'inline': S.inline}[second]
+    def go(fn):
+        skw = {}
+        if second == 'unroll_for': skw = {'times': kw.get('times', 1)}
+        c = _where(fn, where, strat, **skw)
+        g = first(fn)
+        if second == 'split': return S.split(g, kw.get('factor', 2), c)
+        if second == 'inline': return S.inline(g, c, recursive=kw.get('recursive', True))
+        return strat(g, c, kw.get('times', 1))
+    return Rcp(go, strict={'kind': 'unknown', 'factors': _dyn_factors([first.strict] if first.strict else []) + ([kw['factor']] if isinstance(kw.get('factor'), str) else [])})
+
+RECIPE_NS = {'simplify': r_simplify, 'single': r_single, 'constfold_shared': r_constfold_shared, 'dce_shared': r_dce_shared, 'copyprop': r_copyprop,
+             'order': r_order, 'fixpoint': r_fixpoint, 'unroll_for': r_unroll_for, 'ForUnroll': r_ForUnroll, 'unroll_while': r_unroll_while,
+             'WhileUnroll': r_WhileUnroll, 'split': r_split, 'SplitLoop': r_SplitLoop, 'elim_iter': r_elim_iter, 'fuse': r_fuse, 'inline': r_inline,
+             'FuncInline': r_FuncInline, 'inline_each': r_inline_each, 'close': r_close, 'lift_context': r_lift_context, 'LiftContext': r_LiftContext,
+             'mono': r_mono, 'Monomorphize': r_Monomorphize, 'seq': r_seq, 'repeat': r_repeat, 'fwd': r_fwd}
+
+def make_recipe(src: str) -> Rcp:
+    return eval(src, dict(RECIPE_NS))
+
+# ====================================================================== the AssertionError precondition
+def _selected_trips(loops, where):
+    if loops is None: return None
+    # an index counts only the loops the strategy does not refuse (STRICT refuses statically indivisible ones), so which
+    # loop an index names is not known here: the precondition is taken to hold only if EVERY loop is divisible
+    if where is None or isinstance(where, int): return loops
+    return None
+
+def _names_of(src):
+    return {n.id for n in pyast.walk(pyast.parse(src, mode='eval')) if isinstance(n, pyast.Name)} - {'len', 'max'}
+
+def factor_is_dynamic(rcp, prog) -> bool:
+    """is a variable split factor (re)bound by the program itself, so that its value at a loop entry need not be a positive integer?"""
+    st = rcp.strict
+    if not st: return False
+    fs = ([st['factor']] if st.get('kind') == 'split' and not isinstance(st.get('factor'), int) else []) + st.get('factors', [])
+    pn = set(prog.get('pnames') or [])
+    asg = prog.get('assigned')
+    for f in fs:
+        names = _names_of(f)
+        if prog.get('pre') or asg is None or not names <= pn or names & set(asg): return True
+    return False
+
+def error_allowed(rcp, prog, args, got) -> bool:
+    """errors of the transformed program that a documented precondition of the strategy explains"""
+    if got == 'err AssertionError' and assertion_allowed(rcp, prog, args): return True
+    if got in ('err AssertionError', 'err ValueError', 'err TypeError') and factor_is_dynamic(rcp, prog): return True
+    return False
+
+def assertion_allowed(rcp, prog, args) -> bool:
+    """may the transformed program raise AssertionError on these arguments? (documented preconditions only)"""
+    st = rcp.strict
+    if st is None: return False
+    if st['kind'] == 'unknown': return True
+    env = dict(zip(prog.get('pnames') or [], args))
+    env.update({'len': len, 'max': max, 'min': min, 'int': int})
+    need_div = True
+    if st['kind'] == 'for': k = st['k']
+    else:
+        f = st['factor']
+        if isinstance(f, int): k = f
+        else:
+            names = {n.id for n in pyast.walk(pyast.parse(f, mode='eval')) if isinstance(n, pyast.Name)} - {'len', 'max'}
+            if not names <= set(prog.get('pnames') or []) or names & set(prog.get('assigned') or prog.get('pnames') or []):
+                return True           # the factor is (re)computed by the program: its value at the loop is not known here
+            try: k = eval(f, {'__builtins__': {}}, env)
+            except Exception: return True
+            if not (isinstance(k, (int, float)) and k == int(k)): return True
+            k = int(k)
+            if k < 1: return True     # `assert factor >= 1`
+        need_div = st['strict']
+    if not need_div: return False
+    trips = _selected_trips(prog.get('loops'), st['where'])
+    if trips is None: return True
+    for t in trips:
+        if t is None: return True
+        try: n = eval(t, {'__builtins__': {}}, env)
+        except Exception: return True
+        if n % k != 0: return True
+    return False
+
+def _driver(lines, timeout):
+    import subprocess
+    p = subprocess.run([str(DRV)], input='\n'.join(lines) + '\n', capture_output=True, text=True, timeout=timeout)
+    out = p.stdout.split('\n')
+    if out and out[-1] == '': out.pop()
+    if len(out) != len(lines): raise RuntimeError(f'driver returned {len(out)} lines for {len(lines)} inputs; stderr={p.stderr[-300:]}')
+    return out
+
+def safe_driver(lines, count, timeout=40, deadline=None):
+    """the compiled model can abort on absurd inputs (a precision of 1e300 -> `Nat.pow exponent is too big`) or take very long
+    (fuel is a depth bound, not a step bound): isolate the offending lines instead of losing the batch"""
+    import subprocess
+    deadline = deadline or time.time() + 90
+    if time.time() > deadline:
+        count('model-budget-cut', len(lines)); return ['bad-budget'] * len(lines)
+    try:
+        return _driver(lines, timeout)
+    except (RuntimeError, subprocess.TimeoutExpired) as e:
+        if len(lines) == 1:
+            count('model-timeout' if isinstance(e, subprocess.TimeoutExpired) else 'model-crash'); return ['bad-crash']
+        mid = len(lines) // 2
+        return safe_driver(lines[:mid], count, max(10, timeout // 2), deadline) + safe_driver(lines[mid:], count, max(10, timeout // 2), deadline)
+
+def exportable(fn, seen=None) -> bool:
+    """the Lean evaluator has no module-level data: programs (or callees) that read captured numbers / tuples / lists are not exported"""
+    from fpy2.function import Function
+    seen = seen if seen is not None else set()
+    if id(fn.ast) in seen: return True
+    seen.add(id(fn.ast))
+    env = fn.ast.env
+    for fv in fn.ast.free_vars:
+        v = env.get(str(fv)) if str(fv) in env else None
+        if isinstance(v, (int, float, tuple, list)) and not isinstance(v, bool): return False
+        if isinstance(v, Function) and not exportable(v, seen): return False
+    return True
+
+# ====================================================================== worker
+_W = {'tmp': None, 'corpus': {}}
+
+def _load_prog(prog):
+    """-> (Function under test, source text shown in a replay)"""
+    if prog['src'] is None:
+        path = prog['corpus_file']
+        if path not in _W['corpus']:
+            _W['corpus'][path] = load_module(path, 'fpyverif_corpus_' + os.path.basename(path)[:-3] + f'_{os.getpid()}')
+        fn = getattr(_W['corpus'][path], prog['entry'])
+        src = None
+    else:
+        tmp = _W['tmp'] or tempfile.mkdtemp(prefix='fpyverif_xf_', dir='/var/tmp')
+        _W['tmp'] = tmp
+        path = os.path.join(tmp, f"{prog['entry']}_{os.getpid()}.py")
+        with open(path, 'w') as fh: fh.write(prog['src'])
+        mod = load_module(path, f"fpyverif_{prog['entry']}_{os.getpid()}")
+        fn = getattr(mod, prog['entry'])
+        src = prog['src']
+    return fn, src
+
+def run_one(task):
+    """one program, all its recipes and inputs; returns a picklable summary (never raises)"""
+    for attempt in (0, 1):
+        try:
+            return _run_one(task)
+        except TimeoutError:
+            continue     # a stray alarm outside `observe`: run the program again
+        except BaseException as e:
+            return {'label': task[0]['label'], 'hist': {'worker-error:' + type(e).__name__: 1}, 'violations': [], 'samples': [], 'evals': 0, 'distinct': 0, 'traces': 0, 'hangs': [], 'notes': [],
+                    'broken': [('harness', 'worker', f"{task[0]['label']}: " + traceback.format_exc()[-1500:])]}
+    return {'label': task[0]['label'], 'hist': {'worker-retry-exhausted': 1}, 'violations': [], 'samples': [], 'evals': 0, 'distinct': 0, 'traces': 0, 'hangs': [], 'notes': [], 'broken': []}
+
+def _run_one(task):
+    prog, recipes, opts = task
+    out = {'label': prog['label'], 'hist': {}, 'violations': [], 'broken': [], 'samples': [], 'evals': 0, 'distinct': 0, 'traces': 0, 'hangs': [], 'notes': []}
+    H = out['hist']
+    def count(k, n=1): H[k] = H.get(k, 0) + n
+    t_start = time.time(); c_start = time.process_time()
+    _W['tmp'] = opts.get('tmpdir') or _W['tmp']
+    try:
+        fn0, src = _load_prog(prog)
+    except Exception as e:
+        count('frontend-rejected'); count(f'frontend-rejected:{type(e).__name__}')
+        return out
+    count('programs')
+    fn = fn0
+    if prog.get('pre'):
+        try:
+            fn = with_timeout(lambda: make_recipe(prog['pre'])(fn0), 20)
+        except BaseException as e:
+            count(f'pre-declined:{type(e).__name__}'); return out
+        if fn.ast.is_equiv(fn0.ast):
+            count('pre-unchanged'); return out
+    inputs = []
+    for a in prog['args']:
+        try: inputs.append((a, tuple(eval(a, {'fp': fp}))))
+        except Exception: count('bad-args')
+    ctxs = [(cs, None if cs is None else eval(cs, {'fp': fp})) for cs in (prog.get('ctxs') or [None])]
+    base = {}; slow = set()
+    def baseline(akey, args, cs, ctx):
+        k = (akey, cs)
+        if k not in base:
+            t0 = time.process_time()
+            base[k] = observe(fn, args, ctx)
+            if time.process_time() - t0 > opts.get('slow_s', 0.5) and not base[k][0].startswith('timeout'):
+                slow.add(akey); count('slow-input-dropped')
+            r = base[k][0]
+            count('orig:' + ('ok' if r.startswith('ok') else r.split()[1] if ' ' in r else r))
+        return base[k]
+    seen_xf = {}
+    fn_text = describe(fn)
+    lines, meta = [], []
+    budget = opts.get('prog_budget', 90)
+    for rname in recipes:
+        if time.process_time() - c_start > budget:
+            count('program-budget-cut'); break
+        try:
+            rcp = make_recipe(rname)
+        except Exception as e:
+            out['broken'].append(('harness', 'recipe', f'{rname}: {e!r}')); continue
+        short = rname.split('(')[0]
+        try:
+            xf = with_timeout(lambda: rcp(fn), 20)
+        except StrategyTimeout:
+            count(f'strategy-timeout:{short}')
+            out['hangs'].append({'program': prog['label'], 'strategy': rname, 'source': src or fn_text})
+            continue
+        except BaseException as e:   # the strategy declined / does not apply
+            count(f'declined:{short}:{type(e).__name__}')
+            continue
+        count('applied:' + short)
+        try:
+            changed = not xf.ast.is_equiv(fn.ast)
+        except Exception:
+            changed = True
+        if rcp.mono_ctx is not None and xf.ast.ctx is not fn.ast.ctx: changed = True
+        count(('changed:' if changed else 'unchanged:') + short)
+        if not changed: continue
+        xtext = describe(xf) + (f'#mono={rcp.mono_ctx}' if rcp.mono_ctx is not None else '') + (f'#strict={rcp.strict}' if rcp.strict else '')
+        if xtext in seen_xf:
+            count('duplicate-output:' + short); continue
+        if len(xtext) > opts.get('max_output_chars', 40000):
+            count('skipped-huge-output:' + short); continue      # nested compositions can blow the text up; running it only measures compile time
+        seen_xf[xtext] = rname
+        if len(out['samples']) < 1 and opts.get('want_samples'):
+            out['samples'].append({'program': prog['label'], 'strategy': rname, 'original': fn_text, 'transformed': describe(xf)})
+        entry = eprog = None
+        if opts.get('export', True) and prog.get('export', True) and exportable(xf):
+            try:
+                entry, eprog = export_program(xf)
+            except Unsupported as e:
+                count('export-unsupported:' + str(e)[:40])
             except Exception as e:
-                rep.count('frontend-rejected'); continue
-            progs.append((f'gen:p{pi}', getattr(mod, funcs[-1]['name']), open(path).read()))
-        lines, meta = [], []
-        hangs = rep.cov.setdefault('strategy_hangs', [])
-        for label, fn, src in progs:
-            kinds = arg_kinds(fn)
-            inputs = gen_inputs(R, kinds, n_inputs)
-            base = {}
-            for name, recipe in recipes:
-                try:
-                    xf = with_timeout(lambda: recipe(fn, R), 20)
-                except StrategyTimeout:
-                    rep.count(f'strategy-timeout:{name}')
-                    rep.notes.append(f'strategy {name} did not finish within 20 s on {label}') if len(rep.notes) < 10 else None
-                    hangs.append({'program': label, 'strategy': name, 'source': src or describe(fn)})
-                    continue
-                except Exception as e:   # the strategy declined / does not apply
-                    rep.count(f'declined:{name}:{type(e).__name__}')
-                    continue
-                if xf is None: continue
-                rep.count('applied:' + name)
-                changed = not xf.ast.is_equiv(fn.ast)
-                rep.count('changed:' + name if changed else 'unchanged:' + name)
-                rep.cov['programs'] = rep.cov.get('programs', 0) + 1
-                try:
-                    entry, prog = export_program(xf)
-                except Unsupported as e:
-                    entry = prog = None; rep.count('export-unsupported:' + str(e)[:40])
-                except Exception as e:
-                    entry = prog = None; rep.count('export-error:' + type(e).__name__)
-                for args in inputs:
-                    for cs in call_ctxs:
-                        ctx = None if cs is None else eval(cs, {'fp': fp})
-                        key = (repr(args), cs)
-                        if key not in base: base[key] = run_real(fn, args, ctx)
-                        want = base[key]
-                        if want.startswith('timeout'):
-                            rep.count('timeout'); continue
-                        got = run_real(xf, args, ctx)
-                        rep.cov['evaluations'] += 1
-                        rep.distinct.add((label, name, key))
-                        if want.startswith('timeout') or got.startswith('timeout'):
-                            rep.count('timeout'); continue
-                        if want.startswith('ok') and got != want and not (name.endswith('!strict') and got == 'err AssertionError'):
-                            d = {'program': label, 'strategy': name, 'args': repr(args), 'ctx': cs, 'original_result': want,
-                                 'transformed_result': got, 'original': src or describe(fn), 'transformed': describe(xf), 'finding': None}
-                            if classify:
-                                d['_fn'] = fn; d['finding'] = classify(d); del d['_fn']
-                            rep.violation(f'{name}: original returns {want[:80]} but the transformed program gives {got[:80]}', d)
-                        rep.count('orig:' + ('ok' if want.startswith('ok') else want.split()[1] if ' ' in want else want))
-                        if prog is not None and not got.startswith('unsupported'):
-                            lines.append(eval_line(entry, prog, args, ctx, fuel=100000))
-                            meta.append((label, name, args, cs, got, xf))
-                if len(rep.cov['samples']) < 3 and changed:
-                    rep.sample({'program': label, 'strategy': name, 'original': describe(fn), 'transformed': describe(xf)})
-        model = run_driver(lines)
-        rep.cov['traces_model_vs_impl'] = len(lines)
-        for line, (label, name, args, cs, got, xf), m in zip(lines, meta, model):
-            if m.startswith('bad-'):
-                rep.count('model-unsupported'); continue
-            if m != got:
-                rep.broke('correspondence', f'{prop}.eval-transformed',
-                          f'program={label} strategy={name}\n{describe(xf)}\nargs={args!r} ctx={cs}\nimpl ={got}\nmodel={m}\nline={line}')
+                count('export-error:' + type(e).__name__)
+        use_inputs = inputs if opts.get('all_inputs') else select_inputs(inputs, rname, opts)
+        n_lines = 0
+        for ai, (akey, args) in enumerate(use_inputs):
+            if akey in slow: continue
+            use_ctxs = ctxs if rcp.mono_ctx is None else [(None, None)]
+            if len(use_ctxs) > 1 and opts.get('ctx_every') and ai % opts['ctx_every'] != 1: use_ctxs = use_ctxs[:1]
+            for cs, ctx in use_ctxs:
+                if rcp.mono_ctx is not None:
+                    want, wpost = baseline(akey, args, f'mono:{rcp.mono_ctx}', rcp.mono_ctx)
+                else:
+                    want, wpost = baseline(akey, args, cs, ctx)
+                if want.startswith('timeout'):
+                    slow.add(akey); count('timeout:original'); continue
+                if akey in slow: continue
+                got, gpost = observe(xf, args, ctx)
+                out['evals'] += 1; out['distinct'] += 1
+                if got.startswith('timeout'):
+                    # confirm with a generous limit before calling it a hang (the machine may be busy)
+                    w2, _ = observe(fn, args, rcp.mono_ctx if rcp.mono_ctx is not None else ctx, 8)
+                    if w2.startswith('ok'):
+                        got, gpost = observe(xf, args, ctx, 30)
+                        count('timeout:transformed-confirmed' if got.startswith('timeout') else 'timeout:transformed-slow')
+                    else:
+                        count('timeout:both'); continue
+                if want.startswith('ok'):
+                    bad = (got != want) or (gpost != wpost)
+                    if bad and got.startswith('err') and error_allowed(rcp, prog, args, got):
+                        count('precondition-error:' + short); bad = False
+                    if bad:
+                        d = {'program': prog['label'], 'entry': prog['entry'], 'pre': prog.get('pre'), 'strategy': rname, 'args': akey, 'ctx': cs,
+                             'original_result': want, 'transformed_result': got, 'original_lists_after': wpost, 'transformed_lists_after': gpost,
+                             'original': src or fn_text, 'program_under_test': fn_text if (prog.get('pre') or src is None) else None,
+                             'corpus_file': prog.get('corpus_file'), 'transformed': describe(xf), 'axes': prog.get('axes'), 'finding': None}
+                        cls = opts.get('classify')
+                        if cls:
+                            try: d['finding'] = cls(d, fn, xf)
+                            except Exception as e: out['notes'].append(f'classifier failed: {e!r}')
+                        what = f'{rname}: original returns {want[:80]} but the transformed program gives {got[:80]}'
+                        if got == want: what = f'{rname}: same value but the list arguments end as {gpost[:80]} instead of {wpost[:80]}'
+                        out['violations'].append((what, d))
+                        count('violation:' + short)
+                else:
+                    count('orig-raises' + (':transformed-differs' if got != want else ':same'))
+                if eprog is not None and not got.startswith(('unsupported', 'timeout')) and n_lines < opts.get('max_traces', 10**9):
+                    try:
+                        lines.append(eval_line(entry, eprog, args, ctx, fuel=opts.get('fuel', 100000)))
+                        meta.append((rname, akey, cs, got, xf)); n_lines += 1
+                    except Unsupported as e:
+                        count('export-unsupported-value')
+                    except Exception as e:
+                        count('export-error:' + type(e).__name__)
+    if lines:
+        try:
+            model = safe_driver(lines, count)
+            out['traces'] = len(lines)
+            for line, (rname, akey, cs, got, xf), m in zip(lines, meta, model):
+                if m.startswith('bad-'):
+                    count('model-unsupported'); continue
+                if 'OutOfFuel' in m:
+                    count('model-out-of-fuel'); continue
+                if m != got and not (m == 'err Unbound' and got in ('err KeyError', 'err Unbound', 'err NameError')):   # the interpreter reports an unbound name as KeyError
+                    out['broken'].append(('correspondence', f"{opts.get('prop')}.eval-transformed",
+                                          f"program={prog['label']} strategy={rname}\n{describe(xf)}\nargs={akey} ctx={cs}\nimpl ={got}\nmodel={m}\nline={line}"))
+        except Exception as e:
+            out['broken'].append(('harness', 'driver', repr(e)[:500]))
+    count('wall-ms', int((time.time() - t_start) * 1000)); count('cpu-ms', int((time.process_time() - c_start) * 1000))
+    return out
+
+def select_inputs(inputs, rname, opts):
+    """quick tier: loop-restructuring recipes see every designed length; the others a spread"""
+    cap = opts.get('inputs_cap')
+    if cap is None or len(inputs) <= cap: return inputs
+    if rname.startswith(('unroll', 'ForUnroll', 'WhileUnroll', 'split', 'SplitLoop', 'fwd', 'seq(unroll', 'seq(split')): return inputs
+    h = sum(map(ord, rname))
+    idx = sorted({(h + i * 3) % len(inputs) for i in range(cap)} | {len(inputs) - 1, 2 % len(inputs)})
+    return [inputs[i] for i in idx]
+
+def _worker_init():
+    signal.signal(signal.SIGINT, signal.SIG_IGN)
+
+# ====================================================================== driver of a whole run
+def corpus_progs(corpus_file, R, n_random=4, lengths=None, ctxs=(None,)):
+    path = os.path.join(os.path.dirname(os.path.abspath(__file__)), 'corpus', corpus_file)
+    corp = load_module(path, 'fpyverif_corpus_parent_' + corpus_file[:-3])
+    meta = getattr(corp, 'META', {})
+    out = []
+    for f in corp.ALL:
+        m = meta.get(f.ast.name, {})
+        kinds = m.get('kinds') or arg_kinds(f)
+        args = xgen.design_args(R, kinds, m.get('quadratic', True), lengths) + xgen.random_args(R, kinds, n_random)
+        out.append({'label': 'corpus:' + f.ast.name, 'entry': f.ast.name, 'src': None, 'corpus_file': path, 'args': args + m.get('args', []), 'kinds': kinds,
+                    'pnames': [str(a.name) for a in f.ast.args], 'loops': m.get('loops'), 'assigned': m.get('assigned'), 'factors': m.get('factors', []),
+                    'ctxs': (m.get('ctxs') or list(ctxs)) if f.ast.ctx is None else [None], 'pinned': f.ast.ctx is not None, 'axes': None, 'pre': None, 'helpers': []})
+    return out
+
+def run_xforms(rep, tier, seed, prop, progs, recipes_for, classify=None, opts=None):
+    """progs: list of program dicts; recipes_for(prog, R) -> list of recipe strings"""
+    opts = dict(opts or {})
+    tmpdir = tempfile.mkdtemp(prefix=f'fpyverif_{prop}_', dir='/var/tmp')
+    opts.update(prop=prop, classify=classify, tmpdir=tmpdir)
+    tasks = []
+    for i, p in enumerate(progs):
+        R = Prng(seed, f"{prop}:recipes:{p['label']}:{p.get('pre')}")
+        rs = recipes_for(p, R)
+        o = dict(opts); o['want_samples'] = i % 97 == 0
+        tasks.append((p, rs, o))
+    deadline = time.time() + opts.get('deadline_s', 10**9)
+    results = []
+    ctx = mp.get_context('fork')
+    nproc = min(NPROC, max(1, len(tasks)))
+    # longest programs first would need a cost model; interleave instead (chunksize 1 keeps the pool balanced)
+    with ctx.Pool(nproc, initializer=_worker_init) as pool:
+        it = pool.imap_unordered(run_one, tasks, chunksize=1)
+        for k in range(len(tasks)):
+            try:
+                results.append(it.next(timeout=max(5, deadline - time.time())))
+            except mp.TimeoutError:
+                rep.notes.append(f'time budget reached after {len(results)} of {len(tasks)} programs; the rest were not run')
+                rep.count('budget-cut-programs', len(tasks) - len(results))
+                pool.terminate(); break
+    shutil.rmtree(tmpdir, ignore_errors=True)
+    results.sort(key=lambda r: r['label'])
+    hangs = rep.cov.setdefault('strategy_hangs', [])
+    for r in results:
+        for k, v in r['hist'].items(): rep.count(k, v)
+        for what, d in r['violations']: rep.violation(what, d)
+        for kind, name, detail in r['broken']: rep.broke(kind, name, detail)
+        for s in r['samples']: rep.sample(s, cap=6)
+        rep.cov['evaluations'] += r['evals']
+        rep.cov['traces_model_vs_impl'] = rep.cov.get('traces_model_vs_impl', 0) + r['traces']
+        for i in range(r['distinct']): rep.distinct.add((r['label'], i))
+        hangs.extend(r['hangs'][:2])
+        for n in r['notes'][:2]:
+            if len(rep.notes) < 12: rep.notes.append(n)
+    rep.cov['programs'] = rep.hist.get('programs', 0)
+    for h in hangs[:10]:
+        if len(rep.notes) < 12: rep.notes.append(f"strategy {h['strategy']} did not finish within 20 s on {h['program']}")
+    del hangs[20:]
+    return results
+
+def summarize_cov(rep, gen_stats):
+    """input distribution for the evidence file"""
+    H = rep.hist
+    def grp(prefix): return {k[len(prefix):]: v for k, v in sorted(H.items()) if k.startswith(prefix)}
+    rep.cov['generator'] = {k: v for k, v in sorted(gen_stats.items())}
+    rep.cov['recipes'] = {'applied': grp('applied:'), 'changed': grp('changed:'), 'unchanged': grp('unchanged:'), 'declined': grp('declined:'),
+                          'duplicate_output': grp('duplicate-output:'), 'precondition_error': grp('precondition-error:')}
+    rep.cov['original_outcomes'] = grp('orig:')
+
+# ====================================================================== replay
+def replay(rep, data, prop, classify=None):
+    """re-run the violations of a replay file against the current tree; exit 1 if any still fails"""
+    tmp = tempfile.mkdtemp(prefix='fpyverif_replay_', dir='/var/tmp')
+    still = 0
+    try:
+        for i, v in enumerate(data.get('violations', [])):
+            try:
+                if v.get('corpus_file'):
+                    fn = getattr(load_module(v['corpus_file'], f'fpyverif_replay_corpus_{i}'), v['entry'])
+                else:
+                    path = os.path.join(tmp, f'r{i}.py')
+                    with open(path, 'w') as fh: fh.write(v['original'])
+                    fn = getattr(load_module(path, f'fpyverif_replay_{i}'), v['entry'])
+                if v.get('pre'): fn = make_recipe(v['pre'])(fn)
+                rcp = make_recipe(v['strategy'])
+                xf = rcp(fn)
+                args = tuple(eval(v['args'], {'fp': fp}))
+                ctx = None if v.get('ctx') is None else eval(v['ctx'], {'fp': fp})
+                want, wpost = observe(fn, args, rcp.mono_ctx if rcp.mono_ctx is not None else ctx, 20)
+                got, gpost = observe(xf, args, None if rcp.mono_ctx is not None else ctx, 60)
+                bad = want.startswith('ok') and (got != want or gpost != wpost)
+                print(f"[{i}] {v['program']} {v['strategy']} args={v['args'][:100]} ctx={v.get('ctx')}\n     original   : {want[:200]}\n     transformed: {got[:200]}\n     -> {'STILL FAILS' if bad else 'agrees now'}")
+                still += bad
+            except Exception as e:
+                print(f'[{i}] could not be replayed: {e!r}')
     finally:
         shutil.rmtree(tmp, ignore_errors=True)
+    print(f'{still} of {len(data.get("violations", []))} recorded violation(s) still fail')
+    sys.exit(1 if still else 0)
